@@ -29,6 +29,8 @@ DECODER_FILES = ["src/compression/snappy.c", "src/compression/lz4.c", "src/encod
                  "src/encoding/delta.c", "src/encoding/delta_length.c", "src/encoding/delta_strings.c",
                  "src/encoding/dictionary.c", "src/encoding/plain.c", "src/core/buffer.c",
                  "src/thrift/thrift_decode.c", "src/core/bitpack.c"]
+# wrappers around zlib / zstd: no hand-written cursor code, but library state to release on every exit
+CODEC_WRAPPERS = ["src/compression/gzip.c", "src/compression/zstd.c"]
 NOT_DECODER = ("compress", "encode", "encoder", "flush_rle", "flush_bitpack", "write_varint", "complete_group",
                "emit", "lz4_count", "lz4_hash", "snappy_hash", "bitpack8", "bitpack_", "builder", "dict_hash",
                "max_encoded_size", "work_buffer_size", "common_prefix", "buffer_append", "buffer_reserve",
@@ -58,6 +60,11 @@ def run(ctx):
     ctx.clause("C08.4 sign-safe index guards")
     ctx.clause("C08.5 recursion bounded")
     ctx.clause("C08.6 decoder temporaries released on every exit")
+    ctx.clause("C08.7 a refill step of the streaming RLE decoder that gives up records an error or has nothing owed (its driving loops terminate)")
+    from ..rules import progress
+    nfalse, nref = progress.check(ctx, "src/encoding/rle.c", "carquet_rle_decoder")
+    ctx.floor("C08 refill functions of the RLE decoder", nref, 2)
+    ctx.floor("C08 false returns of refill functions", nfalse, 4)
     fns = [f for f in P.funcs_in(*DECODER_FILES) if is_decoder(f)]
     nreads = 0
     npairs = 0
@@ -232,7 +239,7 @@ def run(ctx):
     # ---- (5) recursion, (6) ownership
     nrec = recursion.check(ctx, "R8", "recursion")
     ctx.count("recursion_cycles", nrec)
-    nown = ownership.check(ctx, [f for f in P.funcs_in(*DECODER_FILES)], "R2", "own")
+    nown = ownership.check(ctx, [f for f in P.funcs_in(*(DECODER_FILES + CODEC_WRAPPERS))], "R2", "own")
     ctx.count("acquisition_sites", nown)
 
 
